@@ -63,7 +63,7 @@ let dispatch (a : string array) =
   (* ---- C01 ---- *)
   | "mul_naive" | "mul_m4rm" | "mul" | "mul_mp" | "_mul_even" ->
     let x = m 3 and y = m 4 in
-    if op <> "mul_naive" && op <> "_mul_even" && nci x <> nri y then die "dims";
+    if op <> "_mul_even" && nci x <> nri y then die "dims";
     if op = "mul" || op = "mul_mp" then (if i 5 < 0 then die "cutoff");
     if a.(2) <> "-" then begin
       let c = m 2 in
@@ -71,7 +71,7 @@ let dispatch (a : string array) =
     deliver a.(1) a.(2) (mmul x y)
   | "addmul_naive" | "addmul_m4rm" | "addmul" | "addmul_mp" | "_addmul_even" | "_addmul" ->
     let c = m 2 and x = m 3 and y = m 4 in
-    if op <> "addmul_naive" && op <> "_addmul_even" && op <> "_addmul" && nci x <> nri y then die "dims";
+    if op <> "_addmul_even" && op <> "_addmul" && nci x <> nri y then die "dims";
     if nri c <> nri x || nci c <> nci y then die "C dims";
     if op = "addmul" || op = "addmul_mp" then (if i 5 < 0 then die "cutoff");
     deliver a.(1) a.(2) (madd c (mmul x y))
